@@ -18,6 +18,12 @@ def groups(tier):
                 replay='split',
                 clause='split terminates (loop invariants + variants on all four loops) for every threshold and share count 0..255, '
                        'yields share_count shares, and raises invalid_argument exactly for t = 0, n = 0 or t > n')]
+    U = {'crypto__build_exp_table': 513, 'crypto__build_log_table': 257}
+    G += [Group('combine.rejects.t<=3', 'shamir_b', 'C10/gf.c', entry='h_combine_rejects', defines=['T_MAX=3', 'SHAMIR_UNIT_B', 'CXX_VEC_CAP=8', 'CXX_FIXED_STORAGE'], unwind=34, unwind_by=U,
+                checks=['--bounds-check', '--pointer-check', '--div-by-zero-check'], kind='bounded', bound='threshold <= 3, at most 3 shares; indices and value byte 0 symbolic, value bytes 1..31 zero (byte positions are independent)', timeout=900, backend=['sat', 'cadical'], replay='combine',
+                clause='combine: fewer than t shares or a repeated index among the shares used => invalid_argument; nothing else escapes')]
+    # (a threshold-2 reconstruction group was tried: the interpolation identity over the table-based field operations is not
+    #  decided by the SAT back ends within 10 minutes even for one byte position; reconstruction stays an unchecked clause)
     return G
 
 
